@@ -33,7 +33,7 @@ func (c07) Assumptions() []string {
 	}
 }
 func (c07) Required(tier string) []string {
-	return []string{"H-decline", "H-consume", "H-nested", "malformed-member-declined", "null-root", "deep-root", "reused-buffer", "buffer-used-on-deeper-document-before", "every-cut-or-overwrite-position-of-one-document"}
+	return []string{"H-decline", "H-consume", "H-nested", "malformed-member-declined", "null-root", "deep-root", "reused-buffer", "buffer-used-on-deeper-document-before", "every-cut-or-overwrite-position-of-one-document", "thousands-of-failing-calls-on-the-buffer-before"}
 }
 
 // genContainerDoc generates a document whose first value is a container of the
@@ -211,6 +211,27 @@ func (c07) Gen(r *Rand, sc *Scenario, tier string) {
 		sc.Cfg["sweep"] = 1
 		return
 	}
+	if r.Chance(1, 30) {
+		// thousands of failing calls on the one Buffer (malformed input, wrong root, handler errors),
+		// then ordinary calls with it: what a failing call leaves behind must not add up
+		fails := []string{"[1,", `{"a"`, "x", `[1 2]`, `{"a":1,}`, "1", `[[[[`, `{"a":{"b":[`}
+		obj := r.Chance(1, 2)
+		sc.Docs = append(sc.Docs, docOf([]byte(fails[r.Intn(len(fails))]), "fails"))
+		op := Op{Kind: kindName(obj), Doc: 0, A: 1, Rep: []int{10001, 12000}[r.Intn(2)], Tape: genDecisionTape(r, 4, true)}
+		if r.Chance(1, 3) {
+			sc.Docs[0] = docOf(genContainerDoc(r, obj, r.Range(2, 5), 80), "container")
+			op.Tape = []int{0, mkDec(dError, r.Intn(nErrKinds))} // aborted by the handler every time
+		}
+		ops = append(ops, op)
+		for i := 0; i < 2; i++ {
+			o2 := r.Chance(1, 2)
+			sc.Docs = append(sc.Docs, genTraversalDoc(r, o2, false))
+			ops = append(ops, Op{Kind: kindName(o2), Doc: len(sc.Docs) - 1, A: 1, B: r.Intn(2), Tape: genDecisionTape(r, 20, true)})
+		}
+		sc.Tasks = [][]Op{ops}
+		sc.Cfg["many-failing-calls-first"] = 1
+		return
+	}
 	for i := 0; i < nops; i++ {
 		obj := r.Chance(1, 2)
 		sc.Docs = append(sc.Docs, genTraversalDoc(r, obj, true))
@@ -266,6 +287,18 @@ func (c07) Exec(sc *Scenario, st *Stats) *Violation {
 			e.traverse(travKind(op.Kind), doc)
 			st.probe("buffer-used-on-deeper-document-before")
 			st.ev("history")
+			continue
+		}
+		if op.Rep > 1 {
+			// history only: the same (failing) call many times over on the shared Buffer
+			for k := 0; k < op.Rep; k++ {
+				e := newHEnv(st, NewTape(op.Tape))
+				e.quiet = true
+				e.buf = shared
+				e.traverse(travKind(op.Kind), doc)
+			}
+			st.probe("thousands-of-failing-calls-on-the-buffer-before")
+			st.ev("history-rep")
 			continue
 		}
 		obj := op.Kind == "HandleObjectValues"
